@@ -86,6 +86,32 @@ func titleOf(l slog.Level) string {
 	return l.String()
 }
 
+// severities nobody registered: a record of such a severity still names it (the name holds the number)
+var unregisteredLevels = []slog.Level{slog.Level(17), slog.Level(40), slog.Level(-3), slog.MaxLevel, slog.Level(1 << 20)}
+
+func isUnregistered(l slog.Level) bool {
+	for _, u := range unregisteredLevels {
+		if u == l {
+			return true
+		}
+	}
+	return false
+}
+
+// levelNameProblem judges the level name a decoded record carries.
+func levelNameProblem(got string, l slog.Level) string {
+	if isUnregistered(l) {
+		if !strings.Contains(got, strconv.Itoa(int(l))) {
+			return fmt.Sprintf("level name %q of an unregistered severity does not hold its number %d", got, int(l))
+		}
+		return ""
+	}
+	if got != titleOf(l) {
+		return fmt.Sprintf("level name %q, want %q", got, titleOf(l))
+	}
+	return ""
+}
+
 var nonTerminating = []slog.Level{slog.ErrorLevel, slog.WarnLevel, slog.InfoLevel, slog.DebugLevel, slog.TraceLevel, slog.AlwaysLevel, slog.OKLevel, slog.SuccessLevel, slog.FailLevel}
 
 // fixedPC is a stable program counter inside this binary used with WriteThru.
